@@ -100,6 +100,10 @@ func (g *semGen) expr(c semCtx, d int) string {
 				args = append(args, g.expr(c, d-1))
 			}
 			g.note("call")
+			if g.r.Bool() {
+				// what a call returns (nil for none, the value, or the list of several) is observed, not dropped
+				return "probe(" + nm + "(" + strings.Join(args, ", ") + "))"
+			}
 			return nm + "(" + strings.Join(args, ", ") + ")"
 		}
 		return g.atom()
